@@ -20,6 +20,19 @@ type logHolder struct {
 	atomic.Pointer[zap.Logger]
 }
 
+// update replaces the held logger by derive(current logger). Contexts sharing the holder may
+// update it concurrently, so the new logger is only installed if the one it was derived from is
+// still current; otherwise it is derived again. A plain Load/Store pair would drop the other
+// goroutine's fields or level.
+func (lh *logHolder) update(derive func(*zap.Logger) *zap.Logger) {
+	for {
+		logger := lh.Load()
+		if lh.CompareAndSwap(logger, derive(logger)) {
+			return
+		}
+	}
+}
+
 // InitLogger with fields supplied (if so supplied).
 // If a context already has a logger, is configuration will be lost.
 func InitLogger(ctx context.Context, fields ...zap.Field) context.Context {
@@ -64,7 +77,7 @@ func EnableDebug(ctx context.Context) context.Context {
 // SetLevel sets a specific log level for this context.
 func SetLevel(ctx context.Context, level zapcore.Level) context.Context {
 	lh, ok := getOrDefault(ctx)
-	lh.Store(CustomLevelLogger(lh.Load(), level))
+	lh.update(func(logger *zap.Logger) *zap.Logger { return CustomLevelLogger(logger, level) })
 	if !ok {
 		ctx = context.WithValue(ctx, logHolderKey, lh)
 	}
@@ -75,8 +88,7 @@ func SetLevel(ctx context.Context, level zapcore.Level) context.Context {
 // child logger.
 func WithFields(ctx context.Context, fields ...zap.Field) context.Context {
 	lh, ok := getOrDefault(ctx)
-	logger := lh.Load()
-	lh.Store(logger.With(fields...))
+	lh.update(func(logger *zap.Logger) *zap.Logger { return logger.With(fields...) })
 	if !ok {
 		ctx = context.WithValue(ctx, logHolderKey, lh)
 	}
